@@ -4,6 +4,17 @@
 
 use litep2p::verif::VerifBox;
 
-pub fn new_box(_area: &str) -> Option<Box<dyn VerifBox>> {
-    None
+mod c18ref;
+
+pub fn new_box(area: &str) -> Option<Box<dyn VerifBox>> {
+    match area {
+        // reference only
+        "c18ref" => Some(Box::new(c18ref::RefBox)),
+        // litep2p adapter and reference side by side: `<litep2p observation> | <reference observation>`
+        "c18" => Some(Box::new(c18ref::Both {
+            litep2p: litep2p::verif::new_box("c18")?,
+            reference: c18ref::RefBox,
+        })),
+        _ => None,
+    }
 }
